@@ -11,9 +11,10 @@
 
   `Err.err`      the Go method returns a non-nil error.
   `Err.outside`  the Go method returns nil (or panics) but the result is NOT a function of the
-                 operands' messages (stale limbs, dropped or sign-flipped degree-2 part, index
-                 panic).  Every such case is listed where it is produced, is exhibited on the real
-                 code by a probe of harness/c05_probes.go, and is never emitted as a tie line.
+                 operands' messages.  After the `fix:` commits C05-1 … C05-9 (and C13-1) only three
+                 such cases remain, none reachable through well-typed use: `DropLevel` by more levels
+                 than there are, `Relinearize` into a degree-0 receiver, and the unreachable degree
+                 pattern of `tensorScaleInvariant`.  They are never emitted as tie lines.
 
   Core Lean only.
 -/
@@ -169,8 +170,7 @@ def addSub (c : Cfg) (isSub : Bool) (o : Out) (a : Reg) (b : Arg) : Res :=
     let level := min (min a.level rb.level) out.level
     let degree := max (max a.degree rb.degree) out.degree
     if a.scale = rb.scale then
-      -- evaluateInPlace copies op1's higher-degree limbs WITHOUT negating them (evaluator.go:281)
-      if isSub ∧ rb.degree > a.degree then .error .outside else
+      -- (evaluateInPlace copies op1's higher-degree limbs; `Sub` negates them afterwards)
       ok1 { level := level, degree := degree, scale := a.scale,
             slots := if isSub then vsub t a.slots rb.slots else vadd t a.slots rb.slots }
     else
@@ -183,10 +183,10 @@ def addSub (c : Cfg) (isSub : Bool) (o : Out) (a : Reg) (b : Arg) : Res :=
     let out := outReg c o a a.degree a.level
     let level := min a.level out.level
     if b.isScalar then
-      -- op1·op0.Scale is added to limb 0; opOut.Scale is NOT assigned (evaluator.go:197–227)
+      -- op1·op0.Scale is added to limb 0; `opOut.Scale = op0.Scale`
       let z := b.scalar t * a.scale % t
       let v := List.replicate a.slots.length z
-      ok1 { level := level, degree := a.degree, scale := out.scale,
+      ok1 { level := level, degree := a.degree, scale := a.scale,
             slots := if isSub then vsub t a.slots v else vadd t a.slots v }
     else if b.isVec then
       match b.vec? t c.n with
@@ -205,13 +205,12 @@ def binChk (a b : Reg) : Bool := a.degree + b.degree ≠ 0 ∧ a.degree + b.degr
 /-- `tensorStandard` at `level` -/
 def tensorStd (c : Cfg) (relin : Bool) (a b : Reg) (level : Nat) : Res :=
   let t := c.t
-  if a.degree = 1 ∧ b.degree = 1 then
+  -- "op0 must be of degree at least 1 (a plaintext operand is expected as op1)"
+  if a.degree = 0 then .error .err
+  else if a.degree = 1 ∧ b.degree = 1 then
     if relin ∧ ¬ c.rlk then .error .err else
     ok1 { level := level, degree := if relin then 1 else 2, scale := a.scale * b.scale % t,
           slots := vmul t a.slots b.slots }
-  else if a.degree = 0 ∧ b.degree ≠ 0 then
-    -- "Plaintext (x) Ciphertext" branch only multiplies by op1.Value[0] (evaluator.go:737–747)
-    .error .outside
   else
     ok1 { level := level, degree := a.degree, scale := a.scale * b.scale % t,
           slots := vmul t a.slots b.slots }
@@ -219,16 +218,17 @@ def tensorStd (c : Cfg) (relin : Bool) (a b : Reg) (level : Nat) : Res :=
 /-- `tensorScaleInvariant` at `level`: result scale `s0·s1·(t − Q_ℓ mod t)⁻¹` -/
 def tensorSI (c : Cfg) (relin : Bool) (a b : Reg) (level : Nat) : Res :=
   let t := c.t
-  if a.degree ≠ 1 ∨ b.degree ≠ 1 then .error .outside   -- index panic in tensorLowDeg
+  if a.degree = 0 then .error .err
+  else if a.degree ≠ 1 ∨ b.degree ≠ 1 then .error .outside   -- not reachable: callers ensure 1 ≤ deg, sum ≤ 2
   else if relin ∧ ¬ c.rlk then .error .err else
     let k := inv t (t - qModT c level)
     ok1 { level := level, degree := if relin then 1 else 2, scale := a.scale * b.scale % t * k % t,
           slots := vscale t k (vmul t a.slots b.slots) }
 
-/-- scalar branch of `Mul` (evaluator.go:481–503): opOut.Scale is NOT assigned -/
+/-- scalar branch of `Mul` (evaluator.go:481–503): `opOut.Scale = op0.Scale` -/
 def mulScalar (c : Cfg) (o : Out) (a : Reg) (z : Nat) : Res :=
   let out := outReg c o a a.degree a.level
-  ok1 { level := min a.level out.level, degree := a.degree, scale := out.scale,
+  ok1 { level := min a.level out.level, degree := a.degree, scale := a.scale,
         slots := vscale c.t z a.slots }
 
 def ptOf (level scale : Nat) (t : Nat) (v : List Nat) : Reg :=
@@ -294,7 +294,7 @@ def accDegree (relin : Bool) (a b r : Reg) : Nat :=
 /-- `mulRelinThenAdd` (evaluator.go:1289) with accumulator `r`.  (`if r0 != 1 { MulScalar(c00, r0) }`
     is modelled by an unconditional multiplication: multiplying reduced residues by 1 is the identity.) -/
 def accReg (c : Cfg) (relin : Bool) (a b r : Reg) (level : Nat) : Res :=
-  if a.degree = 0 ∧ b.degree ≠ 0 then .error .outside
+  if a.degree = 0 then .error .err
   else if (a.degree = 1 ∧ b.degree = 1) ∧ relin = true ∧ c.rlk = false then .error .err
   else if r.scale = a.scale * b.scale % c.t then
     ok1 { level := level, degree := accDegree relin a b r, scale := r.scale,
@@ -322,20 +322,17 @@ def accOp (c : Cfg) (relin : Bool) (o : Out) (a : Reg) (b : Arg) : Res :=
       accReg c (relin ∧ rb.degree ≠ 0) a rb r (min (min a.level rb.level) r.level)
     | Option.none =>
       if b.isScalar then
-        -- `opOut.Resize(op0.Degree(), opOut.Level())` (evaluator.go:1170): limbs above op0's level are
-        -- not updated; a degree-2 accumulator loses its third limb
-        if a.level < r.level ∨ r.degree > a.degree then .error .outside else
-        ok1 { level := r.level, degree := a.degree, scale := r.scale,
+        -- `opOut.Resize(max(op0.Degree(), opOut.Degree()), min(op0.Level(), opOut.Level()))`
+        ok1 { level := min a.level r.level, degree := max a.degree r.degree, scale := r.scale,
               slots := vadd t r.slots (vscale t (accScalar t a.scale r.scale (b.scalar t)) a.slots) }
       else if b.isVec then
-        if r.degree > a.degree then .error .outside else
         match b.vec? t c.n with
         | Option.none => .error .err
         | some v =>
           let level := min a.level r.level
           let pt := ptOf level (accPtScale t a.scale r.scale) t v
           if ¬ binChk a pt then .error .err else
-          accReg c false a pt { r with degree := a.degree } level
+          accReg c false a pt r level
       else .error .err)
   | _ => .error .err
 
@@ -346,8 +343,7 @@ def rescaleOp (c : Cfg) (o : Out) (a : Reg) : Res :=
   if c.si then ok1 out else
   if a.level = 0 then .error .err else
   if out.level + 1 < a.level then .error .err else
-  -- the loop ranges over opOut.Value (evaluator.go:1436)
-  if out.degree ≠ a.degree then .error .outside else
+  -- `opOut.Resize(op0.Degree(), opOut.Level())`: the receiver takes op0's degree
   let qi := inv c.t (c.qs.getD a.level 1 % c.t)
   ok1 { level := a.level - 1, degree := a.degree, scale := a.scale * qi % c.t,
         slots := vscale c.t qi a.slots }
@@ -418,12 +414,10 @@ def Instr.outSpec (rf : List Reg) (i : Instr) : Option (Out × Nat) :=
   | .inp => some (Out.inp, i.a)
   | .into j => (rf[j]?).map fun r => (Out.into r, j)
 
-/-- the two call patterns whose result the library does not define as a function of the messages at
-    the recorded scale: a scalar operand with an output whose scale differs from op0's (the scalar
-    branches never assign opOut.Scale), and `Rescale` on a scale-invariant evaluator (a no-op). -/
-def guardOK (c : Cfg) (op : Op) (o : Out) (a : Reg) (b : Arg) : Bool :=
-  (!b.isScalar || (outReg c o a a.degree a.level).scale == a.scale || op == .mta || op == .mrta)
-  && (op != .rescale || !c.si) && op != .matchSL
+/-- instructions excluded from straight-line programs: `Rescale` on a scale-invariant evaluator (a
+    documented no-op that leaves the receiver as it was) and `MatchScalesAndLevel` (two results). -/
+def guardOK (c : Cfg) (op : Op) (_o : Out) (_a : Reg) (_b : Arg) : Bool :=
+  (op != .rescale || !c.si) && op != .matchSL
 
 /-- one instruction: operands are read from the register file, the result is stored at `dst` -/
 def exec (c : Cfg) (rf : List Reg) (i : Instr) : Except Err (List Reg) :=
